@@ -878,6 +878,17 @@ def W1_W2_builders(rep, flow: Flow, want=("W1", "W2"), builders=None):
             if not circs:
                 raise AnalysisError(f"{fq}: result is not a circuit or list of circuits")
             for c in circs:
+                # every measurement circuit ends in a measurement of the register (the fitter reads counts of it)
+                if "W2" in rep.rules or "W1" in rep.rules:
+                    rid0 = "W2" if "W2" in rep.rules else "W1"
+                    term = c.term
+                    last = term[1][-1] if term[0] == "seq" and term[1] else term
+                    n_meas = sum(1 for (leaf, *_x) in t_leaves(term) if leaf[0] == "measure")
+                    if last[0] == "unknown" or any(leaf[0] == "unknown" for (leaf, *_x) in t_leaves(term)):
+                        pass          # unmodelled circuit operation: the measurement may be inside it (other rules refuse)
+                    elif not (last[0] == "measure" and n_meas == 1):
+                        rep.finding(rid0, f"{fq}:measurement", f"{f.module.rel} {f.qualname} return path #{pi}: the returned circuit " + ("is not measured at all" if n_meas == 0 else "does not end in exactly one final measurement") + " (circuit term: preparation, readout, then measure_all is required)")
+                        continue
                 md = c.meta.get("metadata")
                 mdo = r.heap.get(md.oid) if isinstance(md, Ref) else None
                 recs = [val for (k, val, w) in (mdo.meta.get("stores", []) if mdo else []) if isinstance(val, Ref) and r.heap[val.oid].kind == "record"]
@@ -895,6 +906,14 @@ def W1_W2_builders(rep, flow: Flow, want=("W1", "W2"), builders=None):
                 if other_oid is None:
                     raise AnalysisError(f"{fq}: the value composed into the circuit at {cwhere} is not a circuit the interpreter can model (unknown producer): W1/W2 cannot be decided")
                 circ_field = [val for val in rec.fields.values() if isinstance(val, Ref) and r.heap[val.oid].kind == "circuit"]
+                # the record's attributes are read by name in the fitter: a value under the attribute of another role
+                # (constructor arguments in the wrong order) is as good as absent
+                misplaced = [(k, "a circuit") for k, val in rec.fields.items() if isinstance(val, Ref) and r.heap[val.oid].kind == "circuit" and "circ" not in k.lower()
+                             and any("circ" in k2.lower() for k2 in rec.fields)]
+                misplaced += [(k, "not a circuit") for k, val in rec.fields.items() if "circ" in k.lower() and not (isinstance(val, Ref) and r.heap[val.oid].kind == "circuit")]
+                if misplaced and "W2" in rep.rules:
+                    rep.finding("W2", f"{fq}:attribute-roles", f"{f.module.rel} {f.qualname} return path #{pi}: the readout record's attribute `.{misplaced[0][0]}` holds {misplaced[0][1]} (fields: { {k: (r.heap[v.oid].kind if isinstance(v, Ref) else fmt(vkey(v))[:30]) for k, v in rec.fields.items()} }): the record's constructor arguments are not in the order of its parameters")
+                    continue
                 if "W2" in rep.rules:
                     if len(circ_field) == 1 and circ_field[0].oid == other_oid:
                         rep.ok("W2", 1, nontrivial=(fq, pi), sample=f"{f.qualname} path #{pi}: metadata record holds the object composed at {cwhere}")
@@ -921,6 +940,8 @@ def W1_W2_builders(rep, flow: Flow, want=("W1", "W2"), builders=None):
                         okq = qfield is not None and qfield[0] == "list" and qfield[1] == ("param", lp)
                     if not okq:
                         rep.finding("W1", f"{fq}:qubits:{'none' if given else 'given'}", f"{f.module.rel} {f.qualname} return path #{pi} (`{lp}` {'is None' if given else 'given'}): the readout record's qubit field is {qfield}; it must be {'None' if given else 'the caller list in order'}")
+                    elif widths and qfield is not None and (("qubits" not in qfield[2].lower() or "num" in qfield[2].lower()) and any("qubits" in k2.lower() and "num" not in k2.lower() for k2 in rec.fields)):
+                        rep.finding("W1", f"{fq}:attribute-roles", f"{f.module.rel} {f.qualname} return path #{pi}: the measured-qubit list is stored under `.{qfield[2]}` and the register width under `.{widths[0]}`: the record's constructor arguments are not in the order of its parameters")
                     elif not widths:
                         rep.finding("W1", f"{fq}:width", f"{f.module.rel} {f.qualname} return path #{pi}: the readout record does not carry the full register width preparation_circuit.num_qubits")
                     else:
